@@ -798,7 +798,7 @@ MUTANTS = [
       "            points = self.shift.transform(points, inverse=True)", 'C09'),
     M('legacy-block-rule-differs', U, "                len(points) < 2 * bound.n_points_min for points in",
       "                len(points) < bound.n_points_min for points in", 'C13'),
-    M('emulator-count-not-written', NN, "        group.attrs['n_networks'] = len(self.neural_networks)\n", "", 'C09 C05'),
+    M('emulator-count-not-written', NN, "        group.attrs['n_networks'] = len(self.neural_networks)\n", "", 'C09'),
     M('job-returns-the-caller', N,
       "        bound.sample(n_points=n_points, return_points=False)\n        return bound\n",
       "        bound.sample(n_points=n_points, return_points=False)\n        return self\n", 'C08 C03'),
